@@ -97,8 +97,8 @@ class Numbering:
 
     def num(self, x):
         if x is Interface:
-            return 1000
-        return self.by_id.get(id(x), 1001)
+            return 9
+        return self.by_id.get(id(x), 10)
 
     def lst(self, it):
         return [self.num(x) for x in it]
